@@ -13,7 +13,7 @@ pub static DEF: PropDef = PropDef {
     id: "C19",
     title: "The codec is pure",
     rule: "Call histories of 200..1200 calls over a pool of 8..24 generated operations: message decode under any options (G-wire inputs, accepted control messages with several AVPs always among them), bare \
-AVP-list decode, message / AVP encode, hide, reveal, and rendering of the returned errors; half of the pools contain the same hidden value revealed (and the same AVP hidden) under related secrets, a third a control message with 65..104 undecodable records. (silence) while the history runs, file descriptors 1 and 2 of the process are redirected to a memory file: any octet \
+AVP-list decode, message / AVP encode, hide, reveal, and rendering of the returned errors; half of the pools contain the same hidden value revealed (and the same AVP hidden) under related secrets, a third a control message with 65..104 undecodable records. (silence) while the history runs, file descriptors 1 and 2 of the process are redirected to a memory file (in a third of the histories to a pseudo-terminal): any octet \
 captured is a violation, and the offending call is isolated by re-running the distinct operations one at a time. (history independence) every call in a random order with repetitions returns the result \
 it returned in the canonical first pass. (threads) 8 threads run different orders concurrently and every result equals the single-threaded one. Non-trivial = the history contains an accepted control message \
 with at least one AVP and at least 2 distinct kinds of call; distinct by hash of the pool.",
@@ -203,10 +203,16 @@ fn check(t: &mut Tape, cx: &mut Cx) -> Res {
     // a process death here is a crash of the codec, which C01/C02/C13 report; purity is about output and results
     cx.stage(STAGE_UNATTRIBUTED);
     // (silence) + canonical pass + history pass, all under capture
-    let cap = match Capture::start() {
+    // in a third of the histories fds 1 and 2 are a pseudo-terminal instead of a memory file (a library that prints only
+    // when attached to a terminal); if no pty can be had the memory file is used
+    let want_pty = next(3) == 0;
+    let cap = match if want_pty { Capture::start_pty().or_else(Capture::start) } else { Capture::start() } {
         Some(c) => c,
         None => return fail("harness: could not redirect fds 1/2", json!({"harness_bug": true})),
     };
+    if want_pty {
+        cx.class("history run with fds 1 and 2 on a pseudo-terminal (if one was available)");
+    }
     let canonical: Vec<String> = pool.iter().map(|o| o.run()).collect();
     let mut mismatch: Option<(usize, usize, String)> = None;
     for (pos, &i) in order.iter().enumerate() {
@@ -220,7 +226,7 @@ fn check(t: &mut Tape, cx: &mut Cx) -> Res {
         // isolate the offending call
         let mut culprit = None;
         for (i, o) in pool.iter().enumerate() {
-            if let Some(c) = Capture::start() {
+            if let Some(c) = if want_pty { Capture::start_pty().or_else(Capture::start) } else { Capture::start() } {
                 let _ = o.run();
                 let w = c.finish();
                 if !w.is_empty() {
